@@ -242,7 +242,7 @@ def plan(tier):
 
 
 # thorough-tier cases above 3*10^5 transitions: (product states, transitions) as measured once with the counting run
-BIG = {"axi_one_memword_wskew2": (9445, 453360), "axi_two_memwords_write2": (6623, 317904), "axi_array_top_write2": (6623, 317904),
+BIG = {"axi_one_memword_readwrite3": (8487, 543168), "axi_one_memword_wskew2": (9445, 453360), "axi_two_memwords_write2": (6623, 317904), "axi_array_top_write2": (6623, 317904),
        "axi_array_in_file_write2": None,   # alarms on the unfixed tree; not measured
        "axi_nested2_write2": (6405, 409920), "axi_fields_readwrite": (17129, 548128)}
 
